@@ -53,6 +53,7 @@ def run(tier):
     _c_purity(chk, sites)
     _d_aliasing(chk, sites)
     _e_invalidation(chk, sites)
+    _e_lazy_slots(chk)
     _f_tags(chk, sites)
     _g_identity(chk)
     _h_reload(chk)
@@ -449,6 +450,48 @@ def _e_invalidation(chk, sites, rule="C20.e", only_classes=None):
                           f"readers of {R} keep seeing the value of the old state", sample=f"{meth.name}: self.{R} cleared together with the cache")
     if only_classes is None:
         chk.floor("assignments of factory-read attributes examined", n, 2)
+    return n
+
+
+def _e_lazy_slots(chk, rule="C20.e", only_classes=None):
+    """Lazily built helpers (`if self._x is None: self._x = <expr>`): whoever assigns an attribute that <expr> reads (directly or
+    through properties) must also clear the slot, or the helper built from the old state keeps being used."""
+    n = 0
+    for m in _all_service_modules():
+        for cls in [c for c in m.tree.body if isinstance(c, ast.ClassDef)]:
+            if only_classes is not None and cls.name not in only_classes:
+                continue
+            slots = {}
+            for meth in [f for f in cls.body if isinstance(f, ast.FunctionDef)]:
+                for node in ast.walk(meth):
+                    if isinstance(node, ast.If) and isinstance(node.test, ast.Compare) and len(node.test.ops) == 1 and isinstance(node.test.ops[0], ast.Is) \
+                            and isinstance(node.test.comparators[0], ast.Constant) and node.test.comparators[0].value is None \
+                            and isinstance(node.test.left, ast.Attribute) and isinstance(node.test.left.value, ast.Name) and node.test.left.value.id == "self":
+                        slot = node.test.left.attr
+                        for st in node.body:
+                            if isinstance(st, ast.Assign) and any(isinstance(t, ast.Attribute) and t.attr == slot for t in st.targets):
+                                reads = set()
+                                for a in ast.walk(st.value):
+                                    if isinstance(a, ast.Attribute) and isinstance(a.value, ast.Name) and a.value.id == "self" and isinstance(a.ctx, ast.Load):
+                                        reads |= _prop_reads(m, cls, a.attr)
+                                slots.setdefault(slot, set()).update(reads - {slot})
+            for slot, reads in slots.items():
+                state = {a for a in reads if a.startswith("_")}
+                for meth in [f for f in cls.body if isinstance(f, ast.FunctionDef) and f.name not in ("__init__", "__setstate__", "__getstate__")]:
+                    eff = _with_helpers(m, cls, meth.body)
+                    changed = sorted({t.attr for b in eff for st in ast.walk(b) if isinstance(st, (ast.Assign, ast.AugAssign)) for t in (st.targets if isinstance(st, ast.Assign) else [st.target])
+                                      if isinstance(t, ast.Attribute) and isinstance(t.value, ast.Name) and t.value.id == "self" and t.attr in state
+                                      and not (isinstance(st, ast.Assign) and isinstance(st.value, ast.Constant) and st.value.value is None)
+                                      and not _under_none_guard(meth, st, t.attr)})
+                    if not changed:
+                        continue
+                    n += 1
+                    clears = any(isinstance(st, ast.Assign) and isinstance(st.value, ast.Constant) and st.value.value is None and
+                                 any(isinstance(t, ast.Attribute) and t.attr == slot and isinstance(t.value, ast.Name) and t.value.id == "self" for t in st.targets)
+                                 for b in eff for st in ast.walk(b))
+                    chk.check(clears, rule, f"{m.name}::{cls.name}.{meth.name}[lazy slot self.{slot}]",
+                              f"{meth.name}() assigns {changed}, from which the lazily built self.{slot} is computed, without clearing the slot: the helper built for the old "
+                              f"{changed[0]} keeps being used", sample=f"{meth.name}: self.{slot} = None alongside {changed}")
     return n
 
 
